@@ -298,6 +298,13 @@ def sample(ctx, budget=1.0, hint=None, broken=None):
             fail('area/value (%s)' % cls, 'area() is not the signed enclosed area', {'path': desc}, repr(got), repr(want), rep)
             continue
         if cls != 'arc':
+            if r.random() < 0.5:
+                # other queries first (length, a point, an intersection-free bbox): whatever they cache on the segments
+                # must not leak into the reversed / transformed copies
+                try:
+                    path.length(); path.point(0.3); path.bbox()
+                except Exception:
+                    pass
             rv = path.reversed().area()
             if abs(rv + got) > 1e-9 * (abs(got) + 100):
                 fail('area/reversed', 'area does not change sign under reversed()', {'path': desc}, repr(rv), repr(-got), 'svgpathtools.%s.reversed().area()' % desc)
